@@ -192,8 +192,7 @@ Section Sound.
             if nVar <? 0 then inr (RFail "runtime error" pos s) else
             match popn (Z.to_nat nVar) ops [] with
             | Some (vargs, rest) =>
-                let e := Type_value vtype in
-                let (s1, sv) := new_slice s e (map (fun a => Value_assign a e) vargs) in
+                let (s1, sv) := variadic_arg s vtype nVar vargs in
                 inl (sv :: rest, xArgs - nVar + 1, s1)
             | None => inr (RStuck "variadic arguments")
             end
@@ -261,8 +260,8 @@ Section Sound.
           destruct (popn (Z.to_nat (xa - nargs + 1)) ops []) as [[vargs rest]|] eqn:P1.
           2: { apply popn_none in P1. exfalso. lia. }
           apply popn_some in P1. destruct P1 as (Prest & Plen & _).
-          match goal with |- context[new_slice s ?e ?c] =>
-            pose proof (st_ok_new_slice ng s e c Hst) as K; destruct (new_slice s e c) as [s1 sv]; cbn [fst] in K end.
+          match goal with |- context[variadic_arg s ?t ?n ?c] =>
+            pose proof (st_ok_variadic_arg ng s t n c Hst) as K; destruct (variadic_arg s t n c) as [s1 sv]; cbn [fst] in K end.
           destruct (negb (xa - (xa - nargs + 1) + 1 =? nargs)) eqn:NA; [exact I|].
           apply call_tail_ok; auto.
           * rewrite zlen_cons. lia.
